@@ -25,43 +25,68 @@ Qed.
 Section FP.
 Variable sha1 : bytes -> bytes.
 
-(* the octets hashed: the (possibly defective) three-octet prefix, then exactly the public packet body *)
-Lemma fp_input_normal k : wf_pub k ->
+(* the octets hashed: the (possibly defective) three-octet prefix, then exactly the body of the public half -
+   whenever the nominal public length is the real one (supported well-formed material, opaque material) *)
+Lemma fp_input_real k : real_publen k ->
   fp_input k = ([153] ++ firstn 1 (int_to_bytes (6 + publen k) 2) ++ lastn 1 (int_to_bytes (6 + publen k) 2))
-               ++ pub_packet_body k.
+               ++ key_body (pub_half k).
 Proof.
-  intros H. unfold fp_input. cbv zeta. rewrite material_prefix by assumption.
-  unfold pub_packet_body. rewrite key_body_split. unfold keymaterial_bytes, pubkey_pkt.
-  cbn [k_mat k_sec k_created k_alg]. rewrite app_nil_r. destruct H as [_ [_ Hm]]. rewrite (pub_mat_wf _ Hm).
-  rewrite <- !app_assoc. reflexivity.
+  intros H. unfold fp_input. cbv zeta. rewrite material_prefix_real by assumption.
+  rewrite key_body_half. rewrite <- !app_assoc. reflexivity.
 Qed.
 
-Theorem fp_eq_rfc k : wf_pub k -> 6 + publen k < 65536 ->
-  fingerprint sha1 k = rfc_fingerprint sha1 (pub_packet_body k).
+Lemma fp_input_normal k : wf_pub k ->
+  fp_input k = ([153] ++ firstn 1 (int_to_bytes (6 + publen k) 2) ++ lastn 1 (int_to_bytes (6 + publen k) 2))
+               ++ key_body (pub_half k).
+Proof. intros [_ [_ Hm]]. apply fp_input_real. apply real_publen_wf. exact Hm. Qed.
+
+Lemma fp_eq_rfc_half k : wf_pub k -> 6 + publen k < 65536 ->
+  fingerprint sha1 k = rfc_fingerprint sha1 (key_body (pub_half k)).
 Proof.
   intros H Hb. unfold fingerprint, rfc_fingerprint. f_equal. rewrite fp_input_normal by assumption.
-  rewrite length_pub_body by assumption.
+  rewrite length_half_body by assumption.
   assert (0 <= publen k) by (destruct H as [_ [_ Hm]]; apply pubmat_len_nonneg; assumption).
   rewrite int_to_bytes_fits by (change (256 ^ 2) with 65536; lia).
   change (Z.to_nat 2) with 2%nat. rewrite be2_first_last. rewrite <- app_assoc. reflexivity.
 Qed.
 
+(* the public twin is produced, and the fingerprint is the RFC hash of its body *)
+Theorem fp_eq_rfc k : wf_pub k -> 6 + publen k < 65536 ->
+  exists b, pub_packet_body k = Some b /\ fingerprint sha1 k = rfc_fingerprint sha1 b.
+Proof.
+  intros H Hb. exists (key_body (pub_half k)). split.
+  - unfold pub_packet_body. rewrite pubkey_pkt_wf by exact H. reflexivity.
+  - apply fp_eq_rfc_half; assumption.
+Qed.
+
 (* ... and of the RFC packet body written from the fields *)
 Theorem fp_eq_rfc_fields k : wf_pub k -> 6 + publen k < 65536 ->
   fingerprint sha1 k = rfc_fingerprint sha1 (rfc_pub_body (k_created k) (k_alg k) (k_mat k)).
-Proof. intros H Hb. rewrite fp_eq_rfc by assumption. rewrite pub_body_eq_rfc by assumption. reflexivity. Qed.
+Proof. intros H Hb. rewrite fp_eq_rfc_half by assumption. rewrite half_body_eq_rfc by assumption. reflexivity. Qed.
 
 (* non-interference: only creation time, algorithm and public material reach the hash *)
-Theorem fp_public_only k k' : wf_pub k ->
+Lemma fp_public_only_real k k' : real_publen k ->
   k_created k = k_created k' -> k_alg k = k_alg k' -> k_mat k = k_mat k' ->
   fingerprint sha1 k = fingerprint sha1 k'.
 Proof.
   intros H Hc Ha Hm.
-  assert (H' : wf_pub k') by (unfold wf_pub in *; rewrite <- Hc, <- Ha, <- Hm; exact H).
-  unfold fingerprint. f_equal. rewrite !fp_input_normal by assumption.
+  assert (H' : real_publen k') by (unfold real_publen, publen in *; rewrite <- Hm; exact H).
+  unfold fingerprint. f_equal. rewrite !fp_input_real by assumption.
   unfold publen. rewrite Hm. f_equal.
-  unfold pub_packet_body. rewrite !key_body_split. unfold keymaterial_bytes, pubkey_pkt.
-  cbn [k_mat k_sec k_created k_alg]. rewrite Hc, Ha, Hm. reflexivity.
+  rewrite !key_body_half. rewrite Hc, Ha, Hm. reflexivity.
+Qed.
+
+Theorem fp_public_only k k' : wf_pub k ->
+  k_created k = k_created k' -> k_alg k = k_alg k' -> k_mat k = k_mat k' ->
+  fingerprint sha1 k = fingerprint sha1 k'.
+Proof. intros [_ [_ Hm]]. apply fp_public_only_real. apply real_publen_wf. exact Hm. Qed.
+
+(* whenever pubkey() produces a twin, the twin has the fingerprint of the key: supported algorithms and, after
+   repair 3c1c8c6, opaque material alike (there the only twins are those of keys that are public already) *)
+Theorem fp_twin_preserved k k' : real_publen k -> pubkey_pkt k = Some k' ->
+  fingerprint sha1 k' = fingerprint sha1 k.
+Proof.
+  intros H E. apply pubkey_pkt_some in E. subst k'. symmetry. apply fp_public_only_real; [exact H|reflexivity..].
 Qed.
 
 Lemma reparse_fields k : wf_pub k -> parse_consistent k ->
@@ -71,33 +96,36 @@ Proof.
 Qed.
 
 Lemma apply_op_public k o : wf_pub k -> parse_consistent k ->
-  let k' := apply_op k o in
+  exists k', apply_op k o = Some k' /\
   k_created k' = k_created k /\ k_alg k' = k_alg k /\ k_mat k' = k_mat k.
 Proof.
-  intros H Hc. destruct o; cbn [apply_op]; cbv zeta;
-    try (unfold map_sec, pubkey_pkt; cbn [k_created k_alg k_mat]; auto).
-  - destruct H as [_ [_ Hm]]. rewrite (pub_mat_wf _ Hm). auto.
-  - rewrite reparse_fields by assumption. auto.
+  intros H Hc. destruct o; cbn [apply_op].
+  - eexists. split; [reflexivity|]. unfold map_sec; cbn [k_created k_alg k_mat]; auto.
+  - eexists. split; [reflexivity|]. unfold map_sec; cbn [k_created k_alg k_mat]; auto.
+  - eexists. split; [reflexivity|]. unfold map_sec; cbn [k_created k_alg k_mat]; auto.
+  - exists (pub_half k). split; [apply pubkey_pkt_wf; exact H|]. unfold pub_half; cbn [k_created k_alg k_mat]; auto.
+  - exists k. auto.
+  - exists k. rewrite reparse_fields by assumption. auto.
 Qed.
 
-Lemma fold_ops_public ops : forall k, wf_pub k -> parse_consistent k ->
-  let k' := fold_left apply_op ops k in
+Lemma run_ops_public ops : forall k, wf_pub k -> parse_consistent k ->
+  exists k', run_ops ops k = Some k' /\
   k_created k' = k_created k /\ k_alg k' = k_alg k /\ k_mat k' = k_mat k.
 Proof.
-  induction ops as [|o ops IH]; intros k H Hc; cbn [fold_left]; cbv zeta; [auto|].
-  destruct (apply_op_public k o H Hc) as [E1 [E2 E3]]. cbv zeta in *.
-  assert (H1 : wf_pub (apply_op k o)) by (unfold wf_pub in *; rewrite E1, E2, E3; exact H).
-  assert (Hc1 : parse_consistent (apply_op k o)) by (unfold parse_consistent in *; rewrite E2, E3; exact Hc).
-  destruct (IH _ H1 Hc1) as [F1 [F2 F3]]. cbv zeta in *.
-  rewrite F1, F2, F3. auto.
+  induction ops as [|o ops IH]; intros k H Hc; cbn [run_ops]; [exists k; auto|].
+  destruct (apply_op_public k o H Hc) as [k1 [E0 [E1 [E2 E3]]]]. rewrite E0.
+  assert (H1 : wf_pub k1) by (unfold wf_pub in *; rewrite E1, E2, E3; exact H).
+  assert (Hc1 : parse_consistent k1) by (unfold parse_consistent in *; rewrite E2, E3; exact Hc).
+  destruct (IH _ H1 Hc1) as [k2 [F0 [F1 [F2 F3]]]].
+  exists k2. rewrite F1, F2, F3. auto.
 Qed.
 
-(* the fingerprint is the same at every point of a history of protect / unlock / lock / pubkey / copy /
-   export+import steps, in any order and number *)
+(* no step of a history of protect / unlock / lock / pubkey / copy / export+import steps refuses a key of a supported
+   algorithm, and the fingerprint is the same at every point, in any order and number *)
 Theorem fp_invariant ops k : wf_pub k -> parse_consistent k ->
-  fingerprint sha1 (fold_left apply_op ops k) = fingerprint sha1 k.
+  exists k', run_ops ops k = Some k' /\ fingerprint sha1 k' = fingerprint sha1 k.
 Proof.
-  intros H Hc. destruct (fold_ops_public ops k H Hc) as [E1 [E2 E3]]. cbv zeta in *.
+  intros H Hc. destruct (run_ops_public ops k H Hc) as [k' [E0 [E1 [E2 E3]]]]. exists k'. split; [exact E0|].
   symmetry. apply fp_public_only; auto.
 Qed.
 
@@ -114,8 +142,11 @@ Proof.
 Qed.
 
 Theorem keyid_eq_rfc k : wf_pub k -> 6 + publen k < 65536 ->
-  unbe (keyid sha1 k) = rfc_keyid_value sha1 (pub_packet_body k).
-Proof. intros. rewrite keyid_low64. unfold rfc_keyid_value. rewrite fp_eq_rfc by assumption. reflexivity. Qed.
+  exists b, pub_packet_body k = Some b /\ unbe (keyid sha1 k) = rfc_keyid_value sha1 b.
+Proof.
+  intros H Hb. destruct (fp_eq_rfc k H Hb) as [b [E F]]. exists b. split; [exact E|].
+  rewrite keyid_low64. unfold rfc_keyid_value. rewrite F. reflexivity.
+Qed.
 
 Lemma length_keyid k : length (keyid sha1 k) = 8%nat.
 Proof. unfold keyid, lastn. rewrite skipn_length. unfold fingerprint. rewrite sha1_len. reflexivity. Qed.
@@ -207,23 +238,75 @@ Proof.
   destruct (k_mat k); try reflexivity. contradiction.
 Qed.
 
-(* a PRIVATE key of an unknown algorithm still differs: `data` is the whole stored material (the boundary between
-   public and secret part is unknown), all of it is hashed, and PrivKeyV4.pubkey() yields an EMPTY twin *)
+(* a PRIVATE key of an unknown algorithm: `data` is the whole stored material (the boundary between public and secret
+   part is unknown), all of it is hashed, and after repair 3c1c8c6 PrivKeyV4.pubkey() REFUSES (NotImplementedError) *)
 Theorem fp_opaque_private_characterised sub c a d sp :
   0 <= c < 4294967296 -> 0 <= a < 256 -> 6 + Z.of_nat (length d) < 65536 ->
   fp_input (opaque_sec sub c a d sp) = [153] ++ be 2 (6 + Z.of_nat (length d)) ++ [4] ++ be 4 c ++ [a] ++ d /\
-  fp_input (pubkey_pkt (opaque_sec sub c a d sp)) = [153; 0; 6; 4] ++ be 4 c ++ [a].
+  pubkey_pkt (opaque_sec sub c a d sp) = None.
 Proof.
-  intros Hc Ha Hb. split; [apply opaque_fp_input; assumption|].
-  unfold pubkey_pkt, opaque_sec. cbn [k_sub k_created k_alg k_mat pub_mat].
+  intros Hc Ha Hb. split; [apply opaque_fp_input; assumption|reflexivity].
+Qed.
+(* the code before that repair produced an EMPTY twin with another fingerprint *)
+Theorem fp_opaque_private_old_characterised sub c a d sp :
+  0 <= c < 4294967296 -> 0 <= a < 256 ->
+  fp_input (pubkey_pkt_old (opaque_sec sub c a d sp)) = [153; 0; 6; 4] ++ be 4 c ++ [a].
+Proof.
+  intros Hc Ha. unfold pubkey_pkt_old, opaque_sec. cbn [k_sub k_created k_alg k_mat pub_mat_old].
   rewrite opaque_fp_input by (cbn [length]; lia). cbn [length]. reflexivity.
 Qed.
 Definition opaque_sec_witness : keypkt :=
   opaque_sec false 1000 21 [0; 9; 1; 255; 0; 0; 7; 99] {| s_usage := 0; s_s2k := []; s_enc := []; s_priv := []; s_chk := [] |}.
-Theorem fp_opaque_private_refuted :
-  fingerprint (fun x => x) opaque_sec_witness <> fingerprint (fun x => x) (pubkey_pkt opaque_sec_witness) /\
+Theorem fp_opaque_private_old_refuted :
+  fingerprint (fun x => x) opaque_sec_witness <> fingerprint (fun x => x) (pubkey_pkt_old opaque_sec_witness).
+Proof. vm_compute. discriminate. Qed.
+(* still true of the repaired code: re-emission of such a private packet appends an S2K usage octet *)
+Theorem opaque_private_reemit_refuted :
   key_body opaque_sec_witness <> [4] ++ be 4 1000 ++ [21] ++ [0; 9; 1; 255; 0; 0; 7; 99].
-Proof. split; vm_compute; discriminate. Qed.
+Proof. vm_compute. discriminate. Qed.
+(* the copy before the repair lost the opaque octets: another fingerprint, for public and private packets *)
+Theorem fp_opaque_copy_old_refuted :
+  fingerprint (fun x => x) (copy_pkt_old opaque_witness) <> fingerprint (fun x => x) opaque_witness /\
+  fingerprint (fun x => x) (copy_pkt_old opaque_sec_witness) <> fingerprint (fun x => x) opaque_sec_witness /\
+  key_body (copy_pkt_old opaque_witness) <> key_body opaque_witness.
+Proof. repeat split; vm_compute; discriminate. Qed.
+(* the old steps are the repaired ones on every supported algorithm *)
+Theorem apply_op_old_same k o : wf_pub k -> apply_op k o = Some (apply_op_old k o).
+Proof.
+  intros H. destruct o; cbn [apply_op apply_op_old]; try reflexivity.
+  - apply pubkey_pkt_old_same. exact H.
+  - destruct H as [_ [_ Hm]]. unfold copy_pkt_old. rewrite (pub_mat_old_wf _ Hm). destruct k; reflexivity.
+Qed.
+
+(* a PUBLIC key of an unknown algorithm is left as it is by every step (protect / unlock / lock have no secret part to
+   act on, PGPKey.pubkey returns the key itself, copy keeps the octets, export + import reads them back) *)
+Lemma opaque_pub_reparse sub c a d : 0 <= c < 4294967296 -> a = 0 \/ a = 21 ->
+  reparse (opaque_pub sub c a d) = opaque_pub sub c a d.
+Proof.
+  intros Hc Ha. unfold reparse.
+  assert (E : key_body_parse (key_body (opaque_pub sub c a d)) = Some (c, a, POpaque d, [])).
+  { unfold key_body, opaque_pub, keymaterial_bytes. cbn [k_created k_alg k_mat k_sec pubmat_bytes].
+    rewrite int_to_bytes_octet by (destruct Ha; subst; lia).
+    rewrite (int_to_bytes_fits c 4) by (change (256 ^ 4) with 4294967296; lia).
+    change (Z.to_nat 4) with 4%nat. rewrite app_nil_r.
+    unfold key_body_parse. cbn [app]. change (4 =? 4) with true. cbv iota.
+    rewrite firstn_app_exact, skipn_app_exact by apply length_be.
+    unfold bytes_to_int. rewrite unbe_be by (change (256 ^ Z.of_nat 4) with 4294967296; lia).
+    cbn [app]. destruct Ha; subst a; reflexivity. }
+  rewrite E. reflexivity.
+Qed.
+Lemma opaque_pub_step sub c a d o : 0 <= c < 4294967296 -> a = 0 \/ a = 21 ->
+  apply_op (opaque_pub sub c a d) o = Some (opaque_pub sub c a d).
+Proof.
+  intros Hc Ha. destruct o; cbn [apply_op]; try reflexivity.
+  rewrite opaque_pub_reparse by assumption. reflexivity.
+Qed.
+Theorem opaque_pub_invariant ops sub c a d : 0 <= c < 4294967296 -> a = 0 \/ a = 21 ->
+  run_ops ops (opaque_pub sub c a d) = Some (opaque_pub sub c a d).
+Proof.
+  intros Hc Ha. induction ops as [|o ops IH]; cbn [run_ops]; [reflexivity|].
+  rewrite opaque_pub_step by assumption. exact IH.
+Qed.
 
 (* the bound 6 + publen < 65536 is needed: above it the code hashes the first and the last of THREE
       length octets (RFC 4880 cannot represent such a key at all: the fingerprint length field has two octets) *)
